@@ -180,12 +180,26 @@ def correspond(ctx, corr):
         bi = b if isinstance(b, int) and not isinstance(b, bool) and b > 0 else 8
         datav = [-1, 0, 1, (1 << bi) - 1, 1 << bi, (1 << bi) + 1, True, False, None, 1.5, "ab", [], [0],
                  [255], [256], [-1], [1, 2], [255] * ((bi + 7) // 8), [1] + [0] * (bi // 8),
+                 [1] + [255] * ((bi + 7) // 8), [0, 0] + [255] * ((bi + 7) // 8), [2, 0, 0, 0],
                  bytes([3, 4]), (7,)]
         for d in datav:
             for cls in (fr.Frame, fr.ForwardFrame):
                 st, r = outcome(lambda: cls(b, d))
                 ans = "ok %d %d" % (int(r._bits), int(r._data)) if st == "ok" else "err " + r
                 run.add("new %s %s" % (tok(b), tok(d)), ans, False)
+                # the property's statement: accepted exactly when the number (an int, or the big-endian value
+                # of a byte sequence) fits the width, and then the frame holds exactly that number
+                if isinstance(b, int) and not isinstance(b, bool) and b >= 1:
+                    num = None
+                    if isinstance(d, int) and not isinstance(d, bool):
+                        num = d
+                    elif isinstance(d, (list, tuple, bytes)) and all(isinstance(x, int) and 0 <= x < 256 for x in d):
+                        num = int.from_bytes(bytes(d), "big")
+                    if num is not None:
+                        want = "ok %d %d" % (b, num) if 0 <= num < (1 << b) else "err ValueError"
+                        if ans != want:
+                            corr.violate("frame:new", "new %s %s" % (tok(b), tok(d)), want, ans,
+                                         "construction must accept exactly the numbers that fit the width")
                 corr.nontrivial(("new", ans.split()[0], ans.split()[1] if st == "err" else ""))
     run.flush(ctx)
 
@@ -223,6 +237,44 @@ def correspond(ctx, corr):
             f = bf(d)
             if str(f) != "%s(%d)" % (bf.__name__, d) or len(f) != 8 or f.error != (bf is fr.BackwardFrameError):
                 corr.violate("frame:backward", "%s(%d)" % (bf.__name__, d), "8-bit frame", str(f))
+    run.flush(ctx)
+
+    # ---- several live frames of different widths, operations interleaved: a frame's behaviour must not
+    # depend on what was done to another frame ----
+    run = Run(corr, "multi_frame")
+    for h in range(300 if ctx.thorough else 40):
+        ws = [ctx.rng.choice([8, 16, 24, 32, ctx.rng.randrange(1, 65)]) for _ in range(4)]
+        frames = [F(w, ctx.rng.randrange(1 << w)) for w in ws]
+        hist = []
+        for step in range(60):
+            k = ctx.rng.randrange(4)
+            f, w = frames[k], ws[k]
+            bits, data = f._bits, int(f._data)
+            if ctx.rng.random() < 0.7:
+                a, b = ctx.rng.randrange(w), ctx.rng.randrange(w)
+                if ctx.rng.random() < 0.5:      # reuse coordinates across frames of different widths
+                    a, b = min(a, 15), min(b, 8) if w > 8 else b
+                width = abs(a - b) + 1
+                v = ctx.rng.choice([ctx.rng.randrange(1 << width), (1 << width) - 1, 0])
+                name, ops = "sets", [a, b, None, v]
+                try:
+                    f[a:b] = v
+                    ans = "ok %d %d unit" % (f._bits, int(f._data))
+                except Exception as e:
+                    ans = "err " + type(e).__name__
+            else:
+                i = ctx.rng.randrange(w)
+                v = ctx.rng.random() < 0.5
+                name, ops = "seti", [i, v]
+                f[i] = v
+                ans = "ok %d %d unit" % (f._bits, int(f._data))
+            line = line_of(name, bits, data, ops, F)
+            run.add(line, ans, True)
+            hist.append("frame%d: %s" % (k, line))
+            if not (f._bits == w and 0 <= f._data < (1 << w)):
+                corr.violate("frame:range", {"history": hist}, "0 <= value < 2^%d" % w, "value %d" % f._data)
+                break
+        corr.nontrivial(("multi", h))
     run.flush(ctx)
 
     # ---- random histories ----
@@ -283,6 +335,16 @@ def correspond(ctx, corr):
             line = line_of(name, bits, data, ops, F)
             run.add(line, ans, True)
             hist.append(line)
+            # the views must follow every mutation (read them at random points so that any caching is exercised)
+            if ctx.rng.random() < 0.6 and f._bits == w and 0 <= f._data < (1 << w):
+                pk = f.pack
+                if not (int.from_bytes(pk, "big") == f._data == f.as_integer and len(pk) == (w + 7) // 8
+                        and f.as_byte_sequence == list(pk) and F(w, pk) == f
+                        and str(f) == "Frame(%d,%s)" % (w, list(pk))
+                        and f.pack_len((w + 7) // 8 + 1) == b"\x00" + pk):
+                    corr.violate("frame:views-after-history", {"history": hist}, "views encode value %d" % f._data,
+                                 "pack=%s as_integer=%s str=%s" % (list(pk), f.as_integer, str(f)))
+                    break
             if not (f._bits == w and 0 <= f._data < (1 << w)):
                 corr.violate("frame:range", {"history": hist}, "0 <= value < 2^%d, width %d" % (w, w),
                              "width %d value %d" % (f._bits, f._data))
